@@ -183,8 +183,58 @@ func c23GenBitStringContent(rt *rapid.T) ([]byte, string, bool) {
 	return out, cls, ok
 }
 
+// c23TimeEdge is a calendar boundary: the last day before it and the first day after it.
+type c23TimeEdge struct{ y1, m1, d1, y2, m2, d2 int }
+
+// c23UTCEdges / c23GenEdges: every boundary the readers have — the YY 49/50 pivot of RFC 5280, the
+// 68/69 pivot of Go's two-digit years, century, year, month and leap-day rollovers, and the first
+// and last representable years of GeneralizedTime.
+var c23UTCEdges = []c23TimeEdge{
+	{2049, 12, 31, 1950, 1, 1}, {1999, 12, 31, 2000, 1, 1}, {2068 - 100, 12, 31, 1969, 1, 1}, {2000, 2, 29, 2000, 3, 1},
+	{2001, 2, 28, 2001, 3, 1}, {2024, 2, 28, 2024, 2, 29}, {2020, 4, 30, 2020, 5, 1}, {1950, 12, 31, 1951, 1, 1}, {2048, 12, 31, 2049, 1, 1},
+}
+var c23GenEdges = []c23TimeEdge{
+	{0, 12, 31, 0, 1, 1}, {9999, 12, 31, 1, 1, 1}, {1949, 12, 31, 1950, 1, 1}, {2049, 12, 31, 2050, 1, 1}, {1899, 12, 31, 1900, 1, 1},
+	{2100, 2, 28, 2100, 3, 1}, {2000, 2, 29, 2000, 3, 1}, {1969, 12, 31, 1970, 1, 1}, {2023, 2, 28, 2023, 3, 1}, {1, 12, 31, 2, 1, 1},
+}
+
+// c23EdgeTime writes a date-time within 14 hours of an edge with a numeric offset (or Z).
+func c23EdgeTime(generalized bool, e c23TimeEdge, after bool, hourIn int, minute, sec int, withSec bool, sign byte, zh, zm int, z bool) []byte {
+	y, m, d, h := e.y1, e.m1, e.d1, 23-hourIn
+	if after {
+		y, m, d, h = e.y2, e.m2, e.d2, hourIn
+	}
+	var sb strings.Builder
+	if generalized {
+		fmt.Fprintf(&sb, "%04d", y)
+	} else {
+		fmt.Fprintf(&sb, "%02d", y%100)
+	}
+	fmt.Fprintf(&sb, "%02d%02d%02d%02d", m, d, h, minute)
+	if withSec || generalized {
+		fmt.Fprintf(&sb, "%02d", sec)
+	}
+	if z {
+		sb.WriteByte('Z')
+	} else {
+		fmt.Fprintf(&sb, "%c%02d%02d", sign, zh, zm)
+	}
+	return []byte(sb.String())
+}
+
 // time strings: fields chosen from boundary sets, then one of several spellings
 func c23GenTimeContent(rt *rapid.T, generalized bool) ([]byte, string) {
+	if uni(rt, "timeEdge", 3) == 0 {
+		edges := c23UTCEdges
+		if generalized {
+			edges = c23GenEdges
+		}
+		e := edges[uni(rt, "edge", len(edges))]
+		b := c23EdgeTime(generalized, e, uni(rt, "edgeAfter", 2) == 1, uni(rt, "edgeHour", 14), []int{0, 29, 30, 59}[uni(rt, "edgeMin", 4)],
+			[]int{0, 1, 59}[uni(rt, "edgeSec", 3)], uni(rt, "edgeWithSec", 3) != 0, "+-"[uni(rt, "edgeSign", 2)], uni(rt, "edgeZh", 15),
+			[]int{0, 30, 45, 59}[uni(rt, "edgeZm", 4)], uni(rt, "edgeZ", 8) == 0)
+		return b, "time:edge"
+	}
 	year := []int{1949, 1950, 1951, 1968, 1969, 1970, 1999, 2000, 2001, 2020, 2024, 2049, 2050, 2051, 2100, 0, 1, 9999}[uni(rt, "year", 18)]
 	month := []int{1, 2, 2, 2, 3, 4, 6, 9, 11, 12, 0, 13}[uni(rt, "month", 12)]
 	day := []int{1, 15, 28, 29, 30, 31, 0, 32}[uni(rt, "day", 8)]
@@ -866,6 +916,51 @@ func TestC23(t *testing.T) {
 			}
 		}
 	}
+	// written date-times within 14 hours of every calendar boundary x every offset -14:30..+14:30 (and Z)
+	tn := 0
+	for _, generalized := range []bool{false, true} {
+		edges, tag := c23UTCEdges, byte(rc.TagUTCTime)
+		if generalized {
+			edges, tag = c23GenEdges, byte(rc.TagGeneralizedTime)
+		}
+		for ei, e := range edges {
+			for _, after := range []bool{false, true} {
+				for hourIn := 0; hourIn < 14; hourIn++ {
+					tn++
+					if !ev.Mine(tn) {
+						continue
+					}
+					for zh := 0; zh <= 14; zh++ {
+						for _, zm := range []int{0, 30} {
+							for _, sign := range []byte{'+', '-'} {
+								for _, withSec := range []bool{true, false} {
+									if generalized && !withSec {
+										continue
+									}
+									content := c23EdgeTime(generalized, e, after, hourIn, 30, 0, withSec, sign, zh, zm, false)
+									in := rc.WrapTLV(tag, content)
+									res := c23CheckAll(in, true)
+									if res.violation != "" {
+										c.Violation(res.violation, "")
+										t.Fatalf("VF-VIOLATION: property=C23 %s; time %q (edge table %d)", res.violation, content, ei)
+									}
+									n++
+								}
+							}
+						}
+					}
+					in := rc.WrapTLV(tag, c23EdgeTime(generalized, e, after, hourIn, 30, 59, true, '+', 0, 0, true))
+					if res := c23CheckAll(in, true); res.violation != "" {
+						c.Violation(res.violation, "")
+						t.Fatalf("VF-VIOLATION: property=C23 %s; input %x (edge table, Z)", res.violation, in)
+					}
+					n++
+				}
+			}
+		}
+	}
+	c.Exhaustive("date-times within 14 h of each calendar boundary (pivots 49/50 and 68/69, year 0000/9999, century, month, leap day) x offsets +-00:00..14:30 x seconds/no seconds", tn)
+	c.Class("table:time-edges-x-offsets")
 	c.Exhaustive("long-form length octets 81 xx / 82 00 xx / 82 01 xx / 83 00 00 xx / 84 00 00 01 xx with full and short content", 256*5*2)
 	for v := 0; v < 256; v++ {
 		for _, in := range [][]byte{{rc.TagBoolean, 1, byte(v)}, {0xa0, 3, rc.TagBoolean, 1, byte(v)}, {rc.TagBitString, 2, byte(v), 0xff}, {rc.TagBitString, 2, byte(v), 0x00}, {rc.TagBitString, 1, byte(v)}, {rc.TagOID, 1, byte(v)}, {rc.TagOID, 2, byte(v), 0x01}, {rc.TagInteger, 2, byte(v), 0x7f}, {rc.TagInteger, 2, byte(v), 0x80}} {
